@@ -701,6 +701,14 @@ def loop_bound(fn, count, path=None, whole=None, db=None):
     if ir.const_of(init0) != 0 and ir.const_of(init) != 0:
         # pointer / iterator loop from begin() to end()
         txt_i, txt_e = ir.show(init0), ir.show(r)
+        if r.get('k') == 'ref' and r.get('dk') == 'local':
+            # the end position hoisted into a named local: look at what it was initialised with
+            for b in bodies:
+                for y in ir.walk(b):
+                    if y.get('k') == 'decl':
+                        for v in y['vars']:
+                            if v.get('id') == r.get('id') and v.get('init') is not None:
+                                txt_e = ir.show(ir.strip_init(v['init']))
         if ('begin' in txt_i and 'end' in txt_e) or (txt_i.endswith('[0]') and whole is not None):
             pointer_loop = True
         else:
